@@ -107,8 +107,12 @@ func c02Scenario(cfg c02Config) {
 	limitHit := m.MaxIterationsReached()
 	_, _ = counted, beforeRefusal
 	zz.Cover("C02.done")
-	zz.CoverIf("C02.some_started_some_dropped", started > 0 && dropped > 0)
-	zz.CoverIf("C02.limit_hit", limitHit)
+	if cfg.ticks > 1 {
+		zz.CoverIf("C02.some_started_some_dropped", started > 0 && dropped > 0)
+	}
+	if cfg.maxLimit > 0 {
+		zz.CoverIf("C02.limit_hit", limitHit)
+	}
 	zz.CoverIf("C04.all_workers_busy_together", c02HighWater.Load() == 1)
 	// nothing is invented, and without a limit nothing is lost: every request is started, reported dropped, or was
 	// never admitted because triggering had already stopped (cancelled context / residue of a late tick)
@@ -163,3 +167,72 @@ func VerifC02_OneWorker() { c02Scenario(c02Config{workers: 1, ticks: 2, nmax: 2,
 //verif:replace (*$M/internal/workers.ActiveScenario).RecordDroppedIteration c02DroppedFn
 //verif:replace (*$M/internal/workers.PoolManager).NextIteration c02NextIteration
 func VerifC02_TwoWorkers() { c02Scenario(c02Config{workers: 2, ticks: 2, nmax: 2, maxLimit: 2}) }
+
+// ---- the same scenario under the other properties it decides ---------------------------------
+
+// VerifC03_TriggerPoolIds: trigger pool, workers racing for the last ids: at most `limit` iterations start, exactly
+// `limit` when the limit ended the run, and the id granted by the dispenser is the one the iteration observes.
+//
+//verif:conc
+//verif:unroll 3
+//verif:timeout 300
+//verif:replace (*$M/internal/workers.ActiveScenario).Run c02RunFn
+//verif:replace (*$M/internal/workers.ActiveScenario).RecordDroppedIteration c02DroppedFn
+//verif:replace (*$M/internal/workers.PoolManager).NextIteration c02NextIteration
+func VerifC03_TriggerPoolIds() { c02Scenario(c02Config{workers: 1, ticks: 2, nmax: 2, maxLimit: 2}) }
+
+// VerifC04_TriggerPoolConcurrency: trigger pool: never more than `concurrency` iterations in flight, every worker
+// uses its own handle, and all workers can be busy at the same time (reachability witness).
+//
+//verif:conc
+//verif:unroll 3
+//verif:timeout 600
+//verif:replace (*$M/internal/workers.ActiveScenario).Run c02RunFn
+//verif:replace (*$M/internal/workers.ActiveScenario).RecordDroppedIteration c02DroppedFn
+//verif:replace (*$M/internal/workers.PoolManager).NextIteration c02NextIteration
+func VerifC04_TriggerPoolConcurrency() {
+	c02Scenario(c02Config{workers: 2, ticks: 1, nmax: 2, maxLimit: 0})
+}
+
+// ---- continuous pool (users mode) -----------------------------------------------------------------
+
+func c02Continuous(workers int, maxLimit uint64) {
+	limit := zz.Uint64("limit")
+	zz.Assume(limit <= maxLimit)
+	as := NewActiveScenario(&scenarios.Scenario{Name: "scn"}, &metrics.Metrics{}, &progress.Stats{}, nil, nil)
+	m := New(limit, as)
+	pool := m.NewContinuousPool(workers)
+	c02Pool = &TriggerPool{numWorkers: workers, iterationStatePool: pool.iterationStatePool}
+	c02FirstTid = 1
+	ctx, cancel := context.WithCancel(context.Background())
+	pool.Start(ctx)
+	cancel() // at an arbitrary moment relative to the workers
+	<-m.WaitForCompletion()
+	started := c02Started.Load()
+	limitHit := m.MaxIterationsReached()
+	zz.Cover("C03.users.done")
+	if maxLimit > 0 {
+		zz.CoverIf("C03.users.limit_hit", limitHit)
+	}
+	zz.CoverIf("C04.users.all_workers_busy_together", c02HighWater.Load() == 1)
+	zz.Assert("C03.users.started_within_limit", limit == 0 || uint64(started) <= limit)
+	zz.Assert("C03.users.exactly_limit_when_limit_ends_run", !limitHit || uint64(started) == limit)
+}
+
+// VerifC03_ContinuousPool: users mode: 2 workers racing for ids with limit 0..3, cancellation at any moment.
+//
+//verif:conc
+//verif:unroll 3
+//verif:timeout 600
+//verif:replace (*$M/internal/workers.ActiveScenario).Run c02RunFn
+//verif:replace (*$M/internal/workers.PoolManager).NextIteration c02NextIteration
+func VerifC03_ContinuousPool() { c02Continuous(2, 3) }
+
+// VerifC04_ContinuousPool: users mode: in-flight bound, own handles, all workers busy together.
+//
+//verif:conc
+//verif:unroll 3
+//verif:timeout 600
+//verif:replace (*$M/internal/workers.ActiveScenario).Run c02RunFn
+//verif:replace (*$M/internal/workers.PoolManager).NextIteration c02NextIteration
+func VerifC04_ContinuousPool() { c02Continuous(2, 0) }
